@@ -16,7 +16,7 @@ for d in sorted(glob.glob("/verif/seeded/*")):
     note = ""
     if first is not None and not first:
         note = " (missed at first; caught after the strengthening described in section 9)"
-    rows.append("| %s | %s | %s | %s%s |" % (tag, (m.get("summary") or "").replace("|", "/")[:150], (m.get("needs_to_manifest") or "").replace("|", "/")[:150],
+    rows.append("| %s | %s | %s | %s%s |" % (tag, (m.get("summary") or "").replace("|", "/")[:170], (m.get("needs_to_manifest") or "").replace("|", "/")[:150],
                                             ", ".join("`%s`" % x for x in mechs) if mechs else "**not caught**", note))
 print("| seed | change | needs | caught by (check:mechanism) |\n|---|---|---|---|")
 print("\n".join(rows))
